@@ -107,10 +107,10 @@ UNCOVERED.update({
     "C04": ["to_slice/ignored etc. are compared with their value-building form through a common specification, not by a two-run product"],
     "C05": ["error list contents compared by length under CBMC", "recovery inside folds: by composition only"],
     "C06": ["Rich::merge: which span the merged error keeps is decided by Verus on the extracted function (span of the pending error, as Cheap/Simple) with RichReason::flat_merge as an assumed callee without contract; what flat_merge itself computes (union of the expected lists, user error preserved) is NOT under contract: its list loop exhausts CBMC's memory (> 24 GB in every case split tried; tried again in round 3 with a user error on one side, > 15 min) and its iterator code is outside Verus; its twin on the add_alt path, Rich::merge_expected_found, is under contract (bounded: one expectation per side)", "the real error types are proved with a bounded number of expectations per error (<= 2; <= 1 per side for merges), spans / found tokens / pattern kinds fully symbolic; Vec growth (realloc) is not exercised (lists are built with spare capacity)", "filter(): found token of a rejection is not asserted (the library reports none)"],
-    "C07": ["IterInput/MappedInput: the empty-match clause with a token ahead is a recorded finding (two entries); at the end of input it holds and is asserted", "Stream/IoInput slices n/a"],
+    "C07": ["IterInput/MappedInput: the empty-match clause with a token ahead is a recorded finding (two entries); at the end of input it holds and is asserted", "Stream/IoInput slices n/a", "&[T] input functions under Verus: vstd's assumed specifications of std (`<[T]>::get`, `<[T]>::len`, range indexing of slices, the blanket `Into` through `From`) are trusted; `len <= usize::MAX` (type invariant of a slice) and the documented safety contract of SliceInput::slice / slice_from (cursors produced by this input, start <= end <= len) are preconditions; pointer identity of the returned sub-slice (zero-copy) follows from the type `&'src [T]` borrowed from the cache and is asserted on concrete buffers by the Kani twin (slice_input_b4)", "unwrapped(): its constructor stores Location::caller() unconditionally (caller_location: unsupported by Kani), tried in round 5"],
     "C08": ["nested_delimiters is a grammar built from combinators that are each under contract (recursive, delimited_by, or, repeated, and_is, none_of, map_with); the composition itself (real recursion through Rc/dyn plus two nested loops) is beyond the solver's time limit and is NOT checked: a change confined to how nested_delimiters assembles them is not detected", "skip strategies bounded to 2 rounds"],
     "C09": ["pratt_go loop: bounded (against real infix operators: 2 operands; against the stub operator table: 2 operator applications, operands nest one level deep; stubs emit nothing)", "tuple tables of arity > 2", "prefix/postfix tables beyond the single-operator steps"],
-    "C10": ["IoInput (BufReader/Seek)", "Graphemes (unicode-segmentation)", "Stream 512-item batch boundary", "bytes feature"],
+    "C10": ["&[T] under Verus: vstd's assumed specifications of std slice operations are trusted", "IoInput (BufReader/Seek)", "Graphemes (unicode-segmentation)", "Stream 512-item batch boundary", "bytes feature"],
     "C11": ["hashbrown::HashMap is replaced by an assumed finite-map contract (kani/hashmodel.rs, <= 3 bindings); the real table is exercised only natively", "distinct zero-sized memoized parsers at the same address share a memo key: recorded finding", "termination of a whole left-recursive parse: only the re-entry contract and the nesting bound (Verus lemma) are proved", "memoization presupposes that re-running a parser at a position gives the same outcome (context- and state-dependent parsers are outside the property's 'grammars')"],
     "C12": ["stack depth / stacker::maybe_grow (external)", "mutual recursion beyond one level is by induction over the forwarding contract", "define()'s panic message formatting (entered through the hook under Kani; the real define() is run natively)"],
     "C13": ["thread clause (no threads in Kani)", "Send/Sync are type-level facts"],
